@@ -21,6 +21,8 @@ def replay(ob):
         return HEAD + "main(['conv_auto_pad_dilations'])\n"
     if "ConvAffineFusion" in n or "AffineConvFusion" in n:
         return HEAD + "main(['conv_affine_shapes'])\n"
+    if "FuseConvPad" in n:
+        return HEAD + "main(['ovr_pad_conv'])\n"
     if "cast_constant_of_shape" in n:
         return HEAD + "main(['cast_constant_of_shape'])\n"
     if "reshape_matmul_reshape" in n:
